@@ -34,6 +34,7 @@ def split(rng: random.Random, n: int, kmax: int = 5):
 def make_tiling(rng: random.Random, gb):
     from odc.geo.geobox import GeoboxTiles
 
+    gb = gen.warm_view(gb)
     NY, NX = gb.shape
     if rng.random() < 0.6:
         t = (max(1, math.ceil(NY / rng.randint(1, 8))), max(1, math.ceil(NX / rng.randint(1, 8))))
@@ -280,7 +281,7 @@ def case_graph_global(mon: Monitor, rng: random.Random) -> None:
     from odc.geo.geobox import GeoBox
 
     scrs, aff, sshape = rng.choice(GLOBAL_SOURCES)
-    src = GeoBox(sshape, Affine(*aff), scrs)
+    src = gen.warm_view(GeoBox(sshape, Affine(*aff), scrs))
     entry = rng.choice([e for e in gen.CRS_WINDOWS if e[0] not in gen.GLOBAL_CRS])
     fam = rng.choice(["north-up", "north-up", "rotated", "mirror-y"])
     dst, _w = gen.window_geobox(rng, entry, npix=(rng.randint(8, 40), rng.randint(8, 40)), extent_deg=rng.choice([1.0, 2.0, 4.0]), fam=fam)
@@ -387,7 +388,7 @@ def case_query_continental(mon: Monitor, rng: random.Random) -> None:
         ("EPSG:3035", Affine(10_000, 0, 2_500_000, 0, -10_000, 5_500_000), (400, 450), (12.0, 52.0), (18.0, 10.0)),
         ("EPSG:3577", Affine(5_000, 0, -1_800_000, 0, -5_000, -1_200_000), (500, 700), (132.0, -24.0), (10.0, 7.0)),
     ])
-    gb = GeoBox(shape, A, gcrs)
+    gb = gen.warm_view(GeoBox(shape, A, gcrs))
     t = (rng.choice([25, 40, 50]), rng.choice([30, 40, 60]))
     gbt = GeoboxTiles(gb, t)
     qcrs = rng.choice(["EPSG:4326", "EPSG:4326", "EPSG:3857"])
